@@ -7,7 +7,7 @@ import os
 V = os.path.dirname(os.path.abspath(__file__))
 
 T = {
-    "C01": ("handle equality ⇔ function equality for all live handles in every reachable state: `canonicity` under `NInv`, `Good` preserved by every operation and by collections (induction over histories); negation is a free involution",
+    "C01": ("handle equality ⇔ function equality for all live handles in every reachable state: `canonicity` under `NInv`, `Good` preserved by every operation and by collections (induction over histories); negation is a free involution; on the packed `u32` words the code holds, negation is an involution without fixed points that flips only the flag, and the packing is a bijection onto handles with index < 2^31 (`C01_negation_on_words`, `C01_handle_words`); every state the model driver holds — after any list of requests, accepted or refused, successes and caught failures — satisfies the invariant, because the driver's run-time precondition check is proved sufficient (`C01_every_driver_state`, `C01_driver_step`)",
             "Lean: canonicity + Good preserved over op histories; strict differential tie"),
     "C02": ("`applyIte_spec`: for every Good state (any cache content satisfying the invariant, any size) and every triple of live handles the result denotes ITE; `applyIte_total`: with fuel above the measure the only failure is 'Storage is full'",
             "Lean: refinement of apply_ite to ITE by induction on fuel; strict differential tie"),
@@ -33,13 +33,13 @@ T = {
             "Lean: induction on fuel + canonicity for cached constants; strict differential tie with forced hits"),
     "C13": ("`satCount_top_spec`: result = semantic count; complement, inclusion–exclusion, unused-variable doubling as theorems about `count`",
             "Lean: memo-invariant induction over Nat (= BigUint); strict differential tie"),
-    "C14": ("`oneSat_spec`, `paths_exactly_once'` for the explicit-stack iterator (each satisfying assignment is covered by exactly one yielded path), literal order",
+    "C14": ("`oneSat_spec`, `paths_exactly_once'` for the explicit-stack iterator (each satisfying assignment is covered by exactly one yielded path), literal order; the `i32` literals pushed by `one_sat`/`paths` are the model's integers for every variable ≤ 2^31−1 (`C14_literal_words`)",
             "Lean: counting invariant of the stack iterator; strict differential tie"),
-    "C15": ("`mkNode_spec` (four sign cases, e=t ⇒ e), `mkVar_spec`, `cube_spec`/`clause_spec` for any listing order over distinct variables",
+    "C15": ("`mkNode_spec` (four sign cases, e=t ⇒ e), `mkVar_spec`, `cube_spec`/`clause_spec` for any listing order over distinct variables; literal words: variable = |lit|, branch = sign, for every `i32` literal except 0 and `i32::MIN` (`C15_literal_words`)",
             "Lean: specs of constructors via canonical store lemmas; strict differential tie"),
     "C16": ("`nodeToStr_spec`/`bracket_faithful` (re-reading the structured export yields the function), `toDot_faithful` (every reachable node declared once, records decode to stored triples), queries return the storage and operation cache they were given",
             "Lean: faithful structured exports + frame lemmas for queries; strict differential tie with independent re-parsers"),
-    "C17": ("`Table.put_spec` on the array table via the function-view refinement (`TInv`: chains acyclic, duplicate-free, each live cell in exactly the chain of its hash, no freed cell), re-established by the sweep; live count = occupied cells",
+    "C17": ("`Table.put_spec` on the array table via the function-view refinement (`TInv`: chains acyclic, duplicate-free, each live cell in exactly the chain of its hash, no freed cell), re-established by the sweep; live count = occupied cells; the packed link word of a cell (31 bits of index + occupied flag) obeys the lens laws, and no index stored in a good state of ≤ 2^31 cells needs more than 31 bits (`C17_cell_word`, `C17_words_fit`)",
             "Lean: table invariant + array/function-view simulation; strict differential tie on chains and counters"),
     "C18": ("trace semantics of the direct-mapped cache for any key type/hash/size: a lookup returns v for k iff the last write to k's slot since the last clear was insert k v; statistics",
             "Lean: induction over event histories; strict differential tie with forced collisions"),
